@@ -31,7 +31,7 @@ import z3
 
 from ..harness import Harness, Built
 from ..seq import Unroll, cosim
-from ..pysym import Engine, SInt, SBool, Unsupported, model_int
+from ..pysym import Engine, SInt, Unsupported
 
 PROP = "C43"
 LEVEL = "model_checking"
